@@ -201,7 +201,8 @@ def pattern_atoms_json(els, pos, charges=None):
 
 def make_case(rng, tier="quick", cell_kind=None, pname=None, boundary="default", replace_all=None, rp_kind=None,
               atol=None, ncopies=None, distort=None, fmax=0.6, exact=None, hints="auto", nudge=(0.02, 0.09),
-              tilt=None, flip=None, bent=None, int_rp=None, mirror_far=False):
+              tilt=None, flip=None, bent=None, int_rp=None, mirror_far=False,
+              unwrap=None, cellvar=None):
     """flip: None = in ~8 % of the cases ONE unperturbed copy of a non-collinear pattern is planted whose long axis is parallel
     or antiparallel to the pattern's axis as written up to eps (copy turned by eps, pi − eps, pi or pi + eps about an axis
     perpendicular to the pattern's long axis, eps = 1e-9 … 1e-3): well inside every tolerance.
@@ -430,6 +431,35 @@ def make_case(rng, tier="quick", cell_kind=None, pname=None, boundary="default",
     tags = [100.0 + k + 0.5 for k in range(len(rel))]
     charges = [(i + 1) / 16.0 for i in range(n)]
     groups = [rng.randint(0, 3) for _ in range(n)]
+    # same lattice, other spelling of the cell: two rows exchanged (left-handed, det < 0) or one row negated; the atoms are
+    # wrapped into the cell AS SPELLED (fractional coordinates in [0, 1) of the new rows)
+    if cellvar is None:
+        cellvar = rng.choice(["", "", "", "", "", "lefthanded", "negrow"])
+    if cellvar:
+        cm = [list(row) for row in case["cell"]]
+        if cellvar == "lefthanded":
+            i, j = rng.sample(range(3), 2)
+            cm[i], cm[j] = cm[j], cm[i]
+        else:
+            k = rng.randrange(3)
+            cm[k] = [-v for v in cm[k]]
+        case["cell"] = cm
+        cmf = np.array(cm, dtype=float)
+        fr = np.array(case["pos"], dtype=float).dot(np.linalg.inv(cmf)) % 1.0
+        fr[fr >= 1.0] = 0.0
+        case["pos"] = [[float(v) for v in x] for x in fr.dot(cmf)]
+    # unwrap (OFF by default, see the report of the guard probe): atoms given up to one cell OUTSIDE the unit cell, each atom
+    # shifted on its own. The search only looks at the 27 neighbouring images of every atom and starts from "home" atoms, so
+    # two atoms of one occurrence that end up in non-adjacent cells are silently not matched — pending a ruling.
+    if unwrap is None:
+        unwrap = False
+    if unwrap:
+        cm = np.array(case["cell"], dtype=float)
+        newpos = []
+        for x in case["pos"]:
+            mult = np.array([rng.choice([-1, 0, 0, 1]) for _ in range(3)])
+            newpos.append([float(v) for v in (np.array(x, dtype=float) + mult.dot(cm))])
+        case["pos"] = newpos
     sj = findlib.struct_json(case["elems"], case["pos"], case["cell"], charges=charges, groups=groups)
     pj = pattern_atoms_json(pel, ppos)
     rj = pattern_atoms_json(rel, rpos, charges=tags)
@@ -442,15 +472,25 @@ def make_case(rng, tier="quick", cell_kind=None, pname=None, boundary="default",
         if len(pel) >= 2 and rng.random() < 0.3:
             h1 = rng.randrange(len(pel))
             h2 = rng.choice([None] + [j for j in range(len(pel)) if j != h1])
-            hints = (h1, h2, None)
-    return {"op": "c05", "hints": list(hints), "int_rp": bool(int_rp), "s": sj, "p": pj, "r": rj, "atol": atol, "replace_all": bool(replace_all),
+            ho = None
+            if h2 is not None and len(pel) >= 3 and rng.random() < 0.5:
+                # an orientation point clearly off the chosen axis
+                P_ = np.array(ppos, dtype=float)
+                u = P_[h2] - P_[h1]
+                cand = [j for j in range(len(pel)) if j not in (h1, h2)
+                        and np.linalg.norm(np.cross(P_[j] - P_[h1], u)) / max(np.linalg.norm(u), 1e-9) > 0.3]
+                if cand:
+                    ho = rng.choice(cand)
+            hints = (h1, h2, ho)
+    hint_spelling = rng.choice(["plain", "plain", "negative", "numpy"]) if any(h is not None for h in hints) else "plain"
+    return {"op": "c05", "hint_spelling": hint_spelling, "hints": list(hints), "int_rp": bool(int_rp), "s": sj, "p": pj, "r": rj, "atol": atol, "replace_all": bool(replace_all),
             "seed": rng.randrange(10 ** 6), "shared": shared, "tags": tags,
             "info": {"cell": cell_kind, "pattern": pname, "boundary": str(boundary), "rp": rp_kind,
                      "copies": len(case["planted"]), "decoys": case["info"]["decoys"], "atol": atol,
                      "distorted": dist_info,
                      "exact180": bool(exact), "tilt_over_atol": tilt_info, "flip": flip_info,
                      "bent_decoy_h_over_atol": bent_info,
-                     "mirror_far": mirror_info}}
+                     "mirror_far": mirror_info, "cellvar": cellvar, "unwrapped": bool(unwrap)}}
 
 
 def make_star_case(rng, tier="quick"):
